@@ -708,3 +708,25 @@ Theorem C01_network_parse_complete_shape : forall lower idna line nr,
   /\ complete_shape_ok (C11_Model.mhas (C11_Model.nr_mask nr) M_IS_COMPLETE_REGEX) (C11_Model.nr_hostname nr) = true.
 Proof. exact Tok_Complete_Parse_Proofs.network_parse_complete_shape. Qed.
 Print Assumptions C01_network_parse_complete_shape.
+
+(* ------------------------------------------------------------------ translator tie: the index
+   maintenance and lookup structure of NetworkFilterList as extracted on this run
+   (Generated.ListGen): one pass of the best-token arms over a token group, started from the
+   extracted initial values (re-initialised per group), IS Net_Model.best_token — in the batch
+   construction and in add_filter alike; the hit test of check / check_all IS Net_Model.hit *)
+From Adb Require Struct_List_Proofs.
+Theorem C01_src_best_token_is_model : forall (cnt : N -> option N) (total : N) (g : list N),
+  (match Struct_List_Proofs.init_of ListGen.new_best_init ListGen.new_min_init total with
+   | Some st => Some (Struct_List_Proofs.run_group ListGen.new_arms cnt g st) | None => None end) = Some (best_token cnt total g)
+  /\ (match Struct_List_Proofs.init_of ListGen.add_filter_best_init ListGen.add_filter_min_init total with
+      | Some st => Some (Struct_List_Proofs.run_group ListGen.add_filter_arms cnt g st) | None => None end) = Some (best_token cnt total g).
+Proof. exact Struct_List_Proofs.best_token_is_model. Qed.
+Print Assumptions C01_src_best_token_is_model.
+
+Theorem C01_src_lookup_structure_is_model : forall (matches : rule -> bool) (tags : list str) (f : rule),
+  Struct_List_Proofs.hit_of ListGen.check_hit matches tags f = Some (hit matches tags f)
+  /\ Struct_List_Proofs.hit_of ListGen.check_all_hit matches tags f = Some (hit matches tags f)
+  /\ ListGen.check_on_hit = "return"%string /\ ListGen.check_all_on_hit = "push"%string
+  /\ ListGen.optimize_threshold = 1%N /\ ListGen.optimize_sorts_by = "id"%string.
+Proof. exact Struct_List_Proofs.lookup_structure_is_model. Qed.
+Print Assumptions C01_src_lookup_structure_is_model.
